@@ -2,8 +2,8 @@
    IMPLEMENTATION's own observations (the per-position scores printed by the harness
    through ScoringMatrix::score_position, the hits the scanner yielded, the answer of
    max()).  Scores are binary32 bit patterns (Z); "exact score" is equality of bit
-   patterns, ">=" is the IEEE comparison.  Definitions only; soundness lemmas in
-   CheckProofs.v. *)
+   patterns, ">=" is the IEEE comparison.  Definitions only; soundness and completeness
+   lemmas (check_c02_sound / _complete, check_c03_sound / _complete) in CheckProofs.v. *)
 From Coq Require Import List ZArith Bool Sorting.Mergesort Orders.
 From LMBase Require Import IEEE.
 Import ListNotations.
